@@ -79,11 +79,36 @@ class _NoFold(Exception):
     pass
 
 
-def _fill_of(stmts, L, kind):
+_PURE_FUNCS = ('len', 'tuple', 'list', 'isinstance', 'type', 'id')
+
+
+def _call_free(e):
+    for n in ast.walk(e):
+        if isinstance(n, ast.Call) and not (isinstance(n.func, ast.Name)
+                                            and n.func.id in _PURE_FUNCS):
+            return False
+        if isinstance(n, (ast.Yield, ast.YieldFrom, ast.Await, ast.NamedExpr)):
+            return False
+    return True
+
+
+class _Inline(ast.NodeTransformer):
+    def __init__(self, name, value):
+        self.name, self.value = name, value
+
+    def visit_Name(self, n):
+        if n.id == self.name and isinstance(n.ctx, ast.Load):
+            return clone(self.value)
+        return n
+
+
+def _fill_of(stmts, L, kind, temps=None):
     """stmts = guards + one fill of L; returns (generators-tail, element)
     where generators-tail is a list of ('if', cond) / ('for', target, iter)"""
     tail = []
-    body = list(stmts)
+    body = [clone(x) for x in stmts]
+    if temps is None:
+        temps = set()
     while True:
         if not body:
             raise _NoFold()
@@ -94,6 +119,20 @@ def _fill_of(stmts, L, kind):
                 raise _NoFold()
             tail += [('if', c) for c in _conjuncts(ast.UnaryOp(op=ast.Not(), operand=st.test))]
             body = body[1:]
+            continue
+        if len(body) > 1 and isinstance(st, ast.Assign) and len(st.targets) == 1 and \
+                isinstance(st.targets[0], ast.Name) and st.targets[0].id != L and \
+                _call_free(st.value) and not _mentions(st.value, L):
+            # a loop-local temporary holding a call-free expression: read it
+            # through (the expression has the same value wherever it is used
+            # within the iteration, provided nothing it mentions is rebound)
+            tmp = st.targets[0].id
+            rest = body[1:]
+            if any(isinstance(x, (ast.Assign, ast.AugAssign, ast.For)) and
+                   (_names(x, ast.Store) & (_names(st.value) | {tmp})) for x in rest):
+                raise _NoFold()
+            body = [_Inline(tmp, st.value).visit(x) for x in rest]
+            temps.add(tmp)
             continue
         if len(body) != 1:
             raise _NoFold()
@@ -170,11 +209,12 @@ def _fold_block(block, later_reads):
                 L = b.targets[0].id
                 if any(_mentions(x, L) for x in block[j + 1:i]) or _mentions(st.iter, L):
                     continue
+                temps = set()
                 try:
-                    tail, el = _fill_of(st.body, L, kind)
+                    tail, el = _fill_of(st.body, L, kind, temps)
                 except _NoFold:
                     continue
-                loopvars = _names(st.target)
+                loopvars = _names(st.target) | temps
                 for t in tail:
                     if t[0] == 'for':
                         loopvars |= _names(t[1])
